@@ -189,6 +189,9 @@ type CrashPlan struct {
 	Node    int
 	Call    int // 1-based index among the node's mutating calls since boot
 	Partial int // >=0: the call is a write and only this many bytes reach the disk
+	// Call2 (>0): a second crash of the same node at this (cumulative) call,
+	// i.e. while it recovers from the first one or shortly after
+	Call2 int
 }
 
 // InstallIntercept counts file-system calls per node and performs the planned
@@ -224,6 +227,19 @@ func (c *Cluster) InstallIntercept(plan *CrashPlan) {
 			}
 			if plan.Partial >= 0 && call.Op == "Write" {
 				return plan.Partial
+			}
+			return vos.Deny
+		}
+		if plan != nil && plan.Call2 > 0 && plan.Node == call.Node && plan.Call2 == c.FsCalls[call.Node] && c.crashDone && !c.crashDone2 {
+			c.crashDone2 = true
+			dead[k] = true
+			c.PlannedDead[k] = true
+			c.CrashedAt2 = fmt.Sprintf("%s %s (call %d of n%d, second crash)", call.Op, filepath.Base(call.Path), plan.Call2, call.Node)
+			if vsched.Cur() != nil {
+				c.crashQ = append(c.crashQ, call.Node)
+				vsched.Interrupt()
+			} else {
+				c.ctlCrash = true
 			}
 			return vos.Deny
 		}
